@@ -664,3 +664,36 @@ Definition vops (rnd : Q -> val) : float_ops val :=
     (fun a b => if py_eq b (Num 0) then None          (* ZeroDivisionError *)
                 else Some (vdiv rnd a b))             (* IEEE division by a non-zero divisor *)
     vneg vlt py_eq is_nan is_inf NaN (fun z => Num (inject_Z z)).
+
+(* ------------------------------------------------------------------ FormulaEnginePool.from_string
+   (_formula_engine_pool.py; what LogicalMeter.start_formula calls).  The pool keeps one engine per
+   key  formula + component_metric_id.value  (string concatenation); an existing engine is reused,
+   whatever nones_are_zeros the later request carries. *)
+Record pengine := mkPE {
+  pe_metric : list N;                                   (* the metric whose streams the engine reads *)
+  pe_prog : option (list step * list (N * bool))        (* None: from_string raised ValueError *)
+}.
+
+Fixpoint pool_find (k : list N) (p : list (list N * pengine)) : option pengine :=
+  match p with
+  | [] => None
+  | (k', e) :: r => if list_eqb N.eqb k k' then Some e else pool_find k r
+  end.
+
+Definition pool_from_string (p : list (list N * pengine)) (f m : list N) (nz : bool)
+  : list (list N * pengine) * pengine :=
+  let k := f ++ m in
+  match pool_find k p with
+  | Some e => (p, e)
+  | None => let e := mkPE m (compile_string nz f) in (p ++ [(k, e)], e)
+  end.
+
+Fixpoint pool_run (p : list (list N * pengine)) (reqs : list (list N * list N * bool)) : list pengine :=
+  match reqs with
+  | [] => []
+  | (f, m, nz) :: r => let '(p', e) := pool_from_string p f m nz in e :: pool_run p' r
+  end.
+
+Definition pool_requests (reqs : list (list N * list N * bool)) : list pengine := pool_run [] reqs.
+
+Definition is_letter (c : N) : bool := (97 <=? c)%N && (c <=? 122)%N.
